@@ -1,20 +1,41 @@
 package space
 
 import (
+	"unsafe";
+
 	"github.com/marekgalovic/anndb/math";
 	"github.com/marekgalovic/anndb/simd/sse";
 )
 
 type sseSpaceImpl struct {}
 
+// The SSE kernels read four floats at a time with aligned loads, which fault on a vector
+// that does not start on a 16-byte boundary. A []float32 is only guaranteed to be 4-byte
+// aligned (sub-slices, small allocations), so such vectors take the portable path.
+func sseLoadable(a, b math.Vector) bool {
+    if len(a) < 4 {
+        return true
+    }
+    return (uintptr(unsafe.Pointer(&a[0])) | uintptr(unsafe.Pointer(&b[0]))) & 15 == 0
+}
+
 func (sseSpaceImpl) EuclideanDistance(a, b math.Vector) float32 {
+    if !sseLoadable(a, b) {
+        return nativeSpaceImpl{}.EuclideanDistance(a, b)
+    }
     return sse.EuclideanDistance(a, b)
 }
 
 func (sseSpaceImpl) ManhattanDistance(a, b math.Vector) float32 {
+    if !sseLoadable(a, b) {
+        return nativeSpaceImpl{}.ManhattanDistance(a, b)
+    }
     return sse.ManhattanDistance(a, b)
 }
 
 func (sseSpaceImpl) CosineDistance(a, b math.Vector) float32 {
+    if !sseLoadable(a, b) {
+        return nativeSpaceImpl{}.CosineDistance(a, b)
+    }
     return sse.CosineDistance(a, b)
 }
